@@ -20,7 +20,7 @@ From HV Require Import Base.Bytes Base.Strto Gen.Tables.
 Import ListNotations.
 Local Open Scope N_scope.
 
-Inductive fault := FStr | FLit | FLevel | FLoops | FUninit | FDiv | FAssert | FFuel.
+Inductive fault := FStr | FLit | FLevel | FLoops | FUninit | FDiv | FAssert | FFuel | FHang.
 Inductive out (A : Type) : Type := Ret (a : A) | Rej | Fault (f : fault).
 Arguments Ret {A} a.
 Arguments Rej {A}.
@@ -42,13 +42,14 @@ Record variant := { fix_memmove : bool; fix_loops : bool; fix_arity : bool; fix_
 Definition Cur : variant := {| fix_memmove := true; fix_loops := true; fix_arity := true; fix_tm := true |}.
 Definition Fixed : variant := {| fix_memmove := true; fix_loops := true; fix_arity := true; fix_tm := true |}.
 
-(* SECOND SWITCH: fixes proposed in /verif/patches and not yet in /repo; set to true when committed:
+(* SECOND SWITCH: further fixes, committed in /repo as ceb66e8 (MemCache level), 6af4733 (width overflow), 1ae4897
+   (interleaving deeper level): all true.  false models the code before the fix:
    fix-C07-synthetic-memcache-level.diff (MemCache rejected as a level type),
    fix-C07-synthetic-width-overflow.diff (totalarity and nbs products guarded against wrap-around) *)
-Definition fix_memcache_level : bool := false.
-Definition fix_width_overflow : bool := false.
+Definition fix_memcache_level : bool := true.
+Definition fix_width_overflow : bool := true.
 (* fix-C07-synthetic-intlv-deeper-level.diff: assert(nb); assert(step) replaced by an error *)
-Definition fix_intlv_deeper : bool := false.
+Definition fix_intlv_deeper : bool := true.
 
 Definition MAXD : N := HWLOC_SYNTHETIC_MAX_DEPTH.
 Definition U32 : N := 4294967296.
@@ -428,7 +429,7 @@ Definition interleave v s lv (attr length total : N) : out (list N) :=
                else Rej
              else Ret (loops, nr_loops)) in
   let '(loops', nr') := lp in
-  if U32 <=? total then Fault FFuel       (* "unsigned j < total" never ends: not modelled *)
+  if U32 <=? total then Fault FHang       (* "unsigned j < total" never ends: not modelled *)
   else
     let a := gen_array (firstn (N.to_nat nr') loops') total in
     if check_array a 0 total then Ret a else Rej.
